@@ -85,6 +85,7 @@ func (fr *Frame) call(b *ssa.BasicBlock, idx int, ins ssa.Instruction, cc *ssa.C
 		args = append(args, fr.val(a))
 	}
 	callee := cc.StaticCallee()
+	fr.callSiteSpecs(b, idx, ins, cc, res, st, reach)
 	if cc.IsInvoke() {
 		// interface method: contract by "<iface type>.<method>" if any
 		recv := fr.val(cc.Value)
@@ -97,8 +98,29 @@ func (fr *Frame) call(b *ssa.BasicBlock, idx int, ins ssa.Instruction, cc *ssa.C
 			setRes(fr.freshResult(rt, res))
 			return
 		}
-		u.note("call through interface %s has no contract: everything reachable is havoc'd", key)
-		fr.havocAll(st, key)
+		// class-hierarchy analysis: union of the module's implementations; external implementations are
+		// assumed to write only what they are handed
+		ma := getModAnalysis(u.P, u.C)
+		union := &ModSet{comps: map[string]compRef{}}
+		for _, impl := range ma.impls[cc.Method.Name()] {
+			if it, ok := cc.Value.Type().Underlying().(*types.Interface); ok && types.Implements(recvType(impl), it) {
+				ms := ma.modSetOf(impl)
+				if ms.all {
+					union.all = true
+				}
+				for k, v := range ms.comps {
+					union.comps[k] = v
+				}
+			}
+		}
+		tmp := &ModSet{comps: map[string]compRef{}}
+		ma.escapes(cc, tmp)
+		for k, v := range tmp.comps {
+			union.comps[k] = v
+		}
+		u.note("call through interface %s: frame = module implementations' inferred frames + objects handed over; result unconstrained", key)
+		fr.havocModSet(union, st, key)
+		fr.havocEscapedPlaces(cc, st)
 		setRes(fr.freshResult(rt, res))
 		return
 	}
@@ -108,8 +130,23 @@ func (fr *Frame) call(b *ssa.BasicBlock, idx int, ins ssa.Instruction, cc *ssa.C
 			callee = mc.Fn.(*ssa.Function)
 			_ = callee
 		}
-		u.note("dynamic call in %s: everything reachable is havoc'd", fr.fn.Name())
-		fr.havocAll(st, "dynamic call")
+		ma := getModAnalysis(u.P, u.C)
+		union := &ModSet{comps: map[string]compRef{}}
+		if sig, ok := cc.Value.Type().Underlying().(*types.Signature); ok {
+			for _, f := range ma.bySig[types.TypeString(stripRecv(sig), nil)] {
+				ms := ma.modSetOf(f)
+				if ms.all {
+					union.all = true
+				}
+				for k, v := range ms.comps {
+					union.comps[k] = v
+				}
+			}
+		}
+		ma.escapes(cc, union)
+		u.note("dynamic call in %s: frame = all module functions of that signature; result unconstrained", fr.fn.Name())
+		fr.havocModSet(union, st, "dynamic call")
+		fr.havocEscapedPlaces(cc, st)
 		setRes(fr.freshResult(rt, res))
 		return
 	}
@@ -139,16 +176,32 @@ func (fr *Frame) call(b *ssa.BasicBlock, idx int, ins ssa.Instruction, cc *ssa.C
 		setRes(fr.freshResult(rt, res))
 		return
 	}
+	if !isPurePkgFunc(callee) && !inModule(callee) {
+		// external function that may call back into the module or write what it is handed
+		ma := getModAnalysis(u.P, u.C)
+		ms := &ModSet{comps: map[string]compRef{}}
+		ma.escapes(cc, ms)
+		ma.callbacks(cc, ms)
+		u.note("call to external %s (no contract): writes what it is handed plus the frames of module callbacks it may invoke; result unconstrained", key)
+		fr.havocModSet(ms, st, key)
+		fr.havocEscapedPlaces(cc, st)
+		setRes(fr.freshResult(rt, res))
+		return
+	}
 	// module function without contract: inline when small and loop-free
 	if !opaque && fr.canInline(callee) {
 		fr.inline(b, idx, ins, callee, args, res, st, reach)
 		return
 	}
-	if strings.HasPrefix(key, modPath) {
-		u.note("call to %s (no contract, not inlinable): everything reachable is havoc'd", key)
-	} else {
-		u.note("call to external %s (no contract): everything reachable is havoc'd", key)
+	if strings.HasPrefix(key, modPath) && callee.Blocks != nil {
+		ms := getModAnalysis(u.P, u.C).modSetOf(callee)
+		u.note("call to %s (no contract): result unconstrained, frame inferred from its static call graph", shortKey(key))
+		fr.havocModSet(ms, st, key)
+		fr.havocEscapedPlaces(cc, st)
+		setRes(fr.freshResult(rt, res))
+		return
 	}
+	u.note("call to external %s (no contract): everything reachable is havoc'd", key)
 	fr.havocAll(st, key)
 	setRes(fr.freshResult(rt, res))
 }
@@ -382,8 +435,13 @@ func (fr *Frame) applyContract(b *ssa.BasicBlock, idx int, ins ssa.Instruction, 
 	}
 	// havoc modifies
 	switch {
-	case c.Pure || (c.HasMod && !c.ModAll && len(c.Modifies) == 0):
-	case c.ModAll || !c.HasMod:
+	case c.Pure || (c.HasMod && !c.ModAll && !c.ModAuto && len(c.Modifies) == 0):
+	case (c.ModAuto || !c.HasMod) && callee != nil && callee.Blocks != nil && inModule(callee):
+		ms := getModAnalysis(u.P, u.C).modSetOf(callee)
+		u.note("frame of %s inferred from its static call graph (class-hierarchy analysis for interface calls; external code writes only what it is handed)", c.Key)
+		fr.havocModSet(ms, st, c.Key)
+		fr.havocEscapedPlaces(ins.(ssa.CallInstruction).Common(), st)
+	case c.ModAll || !c.HasMod || c.ModAuto:
 		if !c.HasMod {
 			u.note("contract of %s has no modifies clause: treated as modifies *", c.Key)
 		}
@@ -1015,6 +1073,11 @@ func (fr *Frame) loopEnv(b *ssa.BasicBlock, li *loopInfo, st *State, phiVals map
 
 // resolveLocal finds the SSA value bound to a source-level local at (the start of) block at.
 func (fr *Frame) resolveLocal(name string, at *ssa.BasicBlock, st *State) *Val {
+	return fr.resolveLocalAt(name, at, -1, st)
+}
+
+// resolveLocalAt resolves a source-level local just before instruction atIdx of block at (-1: block start).
+func (fr *Frame) resolveLocalAt(name string, at *ssa.BasicBlock, atIdx int, st *State) *Val {
 	// address-taken locals: Alloc with that comment
 	for _, b := range fr.fn.Blocks {
 		for _, ins := range b.Instrs {
@@ -1051,7 +1114,7 @@ func (fr *Frame) resolveLocal(name string, at *ssa.BasicBlock, st *State) *Val {
 				}
 			}
 			if blk == at {
-				if _, isPhi := v.(*ssa.Phi); !isPhi {
+				if _, isPhi := v.(*ssa.Phi); !isPhi && idx >= atIdx {
 					return
 				}
 			} else if !blk.Dominates(at) {
@@ -1089,4 +1152,59 @@ func (fr *Frame) resolveLocal(name string, at *ssa.BasicBlock, st *State) *Val {
 		}
 	}
 	return nil
+}
+
+// callSiteSpecs evaluates "at <callee> <n> / before <expr>" blocks of the contract and records call results
+// for res(<callee>, <n>).
+func (fr *Frame) callSiteSpecs(b *ssa.BasicBlock, idx int, ins ssa.Instruction, cc *ssa.CallCommon, res ssa.Value, st *State, reach string) {
+	name := ""
+	if cc.IsInvoke() {
+		name = cc.Method.Name()
+	} else if c := cc.StaticCallee(); c != nil {
+		name = c.Name()
+	} else {
+		return
+	}
+	n := fr.callCount["site:"+name] + 1
+	fr.callCount["site:"+name] = n
+	if fr.callResults == nil {
+		fr.callResults = map[string]ssa.Value{}
+	}
+	if res != nil {
+		fr.callResults[fmt.Sprintf("%s#%d", name, n)] = res
+	}
+	top := fr.fcTop()
+	if top == nil || fr.dry || fr.parent != nil {
+		return
+	}
+	u := fr.u
+	for _, cs := range top.Calls {
+		if cs.Callee != name || cs.Ordinal != n {
+			continue
+		}
+		cs.Hit = true
+		env := fr.localEnv(b, idx, st)
+		for k, cl := range cs.Before {
+			f := env.eval(cl.Expr).S
+			oname := fmt.Sprintf("%s#at:%s:%d:%s", u.Name, name, n, clauseID(cl, k))
+			u.oblige(oname, "assert", fmt.Sprintf("at call %d of %s: %s", n, name, cl.Text), implies(reach, f), cl)
+			u.assert(implies(reach, f))
+		}
+	}
+}
+
+// localEnv: names visible just before instruction idx of block b.
+func (fr *Frame) localEnv(b *ssa.BasicBlock, idx int, st *State) *SpecEnv {
+	u := fr.u
+	vars := map[string]*Val{}
+	for _, p := range fr.fn.Params {
+		vars[p.Name()] = fr.val(p)
+	}
+	var pkg *types.Package
+	if fr.fn.Pkg != nil {
+		pkg = fr.fn.Pkg.Pkg
+	}
+	env := &SpecEnv{fr: fr, vars: vars, cur: st, old: fr.entrySt, pkg: pkg, errs: &u.problems}
+	env.resolve = func(name string) *Val { return fr.resolveLocalAt(name, b, idx, st) }
+	return env
 }
